@@ -217,6 +217,11 @@ class Check:
         self.assumptions = []
         self.rule = ""
         os.makedirs(WORK, exist_ok=True)
+        rdir = os.path.join(VERIF, "replays", prop)
+        if os.path.isdir(rdir):
+            for fn in os.listdir(rdir):
+                if fn.startswith(tier + "_"):
+                    os.remove(os.path.join(rdir, fn))
 
     # -- binding A
     def replay_stage(self, name, module, cfg, tlc_workers=8, harness_workers=4, timeout=1800, exhaustive=True,
